@@ -541,6 +541,8 @@ pub fn deviations(base: &Case, max_wits: usize) -> Vec<Dev<Case>> {
         }
         if era.map_outputs() {
             dev!("wits.plutus_v2=[script]", "plutus2", |c: &mut Case| c.tx.wits.plutus_v2 = Some(vec![plutus_script()]));
+            // a script list that is present but empty next to a non-empty one of another language
+            dev!("wits.plutus_v2=[]", "plutus2", |c: &mut Case| c.tx.wits.plutus_v2 = Some(vec![]));
         }
         // datums
         let dts: Vec<(&str, Option<Vec<Data>>)> = vec![("none", None), ("[]", Some(vec![])), ("[42]", Some(vec![datum()])), ("[42,99]", Some(vec![datum(), Data::Int(99)])), ("[99]", Some(vec![Data::Int(99)])), ("[7]", Some(vec![Data::Int(7)]))];
